@@ -50,19 +50,19 @@ func c04Files(cfg string) (string, []string) {
 	if err != nil {
 		panic(err)
 	}
-	versions, protocols := "[HTTP_VERSION_1]", "[PROTOCOL_CONNECT]"
+	versions, protocols, h2c := "[HTTP_VERSION_1]", "[PROTOCOL_CONNECT]", "false"
 	switch cfg {
 	case "C2":
-		versions = "[HTTP_VERSION_1, HTTP_VERSION_2]"
+		versions, h2c = "[HTTP_VERSION_1, HTTP_VERSION_2]", "true"
 	case "C3":
-		versions, protocols = "[HTTP_VERSION_1, HTTP_VERSION_2]", "[PROTOCOL_CONNECT, PROTOCOL_GRPC]"
+		versions, protocols, h2c = "[HTTP_VERSION_1, HTTP_VERSION_2]", "[PROTOCOL_CONNECT, PROTOCOL_GRPC]", "true"
 	}
 	conf := "features:\n  versions: " + versions + "\n  protocols: " + protocols + `
   codecs: [CODEC_PROTO]
   compressions: [COMPRESSION_IDENTITY]
   streamTypes: [STREAM_TYPE_UNARY]
   supportsTls: false
-  supportsH2c: true
+  supportsH2c: ` + h2c + `
   supportsConnectGet: false
   supportsMessageReceiveLimit: false
 `
@@ -376,7 +376,10 @@ func c04Judge(sc c04Scenario, obs *c04Obs, x *gate.Exec) []gateVerdict {
 	case !obs.Success && want && !obs.ClientCrashed:
 		add("failure-despite-all-met", "the run is reported failed although every selected case ran and met its expectation. %s", describe())
 	}
-	if obs.HasRes {
+	// The peers were started in every scenario, so there are results to report whatever
+	// happened afterwards (client died, timed out, ...): failing cases must be named and the
+	// totals printed.
+	{
 		for _, c := range obs.Cases {
 			_, mustName := c04Truth(c)
 			if mustName && !regexp.MustCompile(`(?m)^FAILED: `+regexp.QuoteMeta(c.name)+`\b`).MatchString(text) && !strings.Contains(text, "FAILED: "+c.name) {
@@ -421,7 +424,7 @@ func c04Outcome(sc c04Scenario, obs *c04Obs) string {
 	}
 	e := obs.RunErr
 	if len(e) > 40 {
-		e = e[:40]
+		e = "..." + e[len(e)-40:]
 	}
 	return fmt.Sprintf("mode=%s|%s|success=%v|err=%s", sc.Mode, strings.Join(cs, ","), obs.Success, e)
 }
@@ -502,6 +505,18 @@ func TestVerifC04(t *testing.T) {
 	bound := 0
 	if rep.Thorough() {
 		bound = 1
+	}
+	// vacuity guard: with every case passing and nothing else going on, the run must succeed;
+	// otherwise the harness itself is broken (bad config, wrong names, ...)
+	if rep.ReplayInput() == nil {
+		for _, cfg := range []string{"C1", "C2", "C3"} {
+			for _, mode := range []string{"both", "client", "server"} {
+				_, obs, _, _ := c04RunOne(t, c04Scenario{Cfg: cfg, Mode: mode}, nil, nil)
+				if obs == nil || !obs.Success {
+					t.Errorf("harness self-check failed: all-pass scenario cfg=%s mode=%s does not succeed: %+v", cfg, mode, obs)
+				}
+			}
+		}
 	}
 	gateExplore(t, r, c04Scenarios(rep.Thorough()), bound, func(sc c04Scenario, prefix []int, expect []gate.PointRec) gateRun {
 		x, obs, verdicts, leak := c04RunOne(t, sc, prefix, expect)
